@@ -172,6 +172,9 @@ class BufferedReader:
                     yield self._buffer[:pos]
                 return
 
+        # NOTE: The source is exhausted and the delimiter was not found; hand
+        #   out what is left, and mark it as consumed.
+        self._buffer_pos = self._buffer_len
         yield self._buffer
 
     async def _consume_delimiter(self, delimiter: bytes) -> None:
